@@ -113,6 +113,10 @@ def run(ctx):
 
     def tdesc(t):
         sc = t["scenario"]
+        if sc["phase"] == "upstream":
+            return "%s: the request had been received in full (head at %d ms), but the client got %s (limits ms %s)" % (
+                sc["name"], t["enter_ms"], "its response" if t.get("got_reply") else ("no complete response: " + str(t.get("err"))),
+                json.dumps(sc["lim"]))
         d = (t["closed_ms"] - t["enter_ms"]) if t["closed_ms"] >= 0 else None
         return "%s: stalled in %s from %d ms, proxy closed the socket %s (limits ms %s)" % (
             sc["name"], sc["phase"], t["enter_ms"],
